@@ -5,12 +5,13 @@
 #include <sys/wait.h>
 #include "vh.h"
 #include "venv.h"
+#include <time.h>
 #include "tlsh.h"
 
-typedef struct { const char *name; cred_defects df; int depth; int only_tlcp_server; int only_client; } defect_t;
+typedef struct { const char *name; cred_defects df; int depth; int only_tlcp_server; int only_client; const char *tz; /* TZ of the verifying process (NULL: unchanged): validity is a statement about UTC instants whatever the local zone */ } defect_t;
 static defect_t DEF[] = {
 	{ "honest-depth1", {0}, 1 }, { "honest-depth2", {0}, 2 }, { "honest-depth3", {0}, 3 },
-	{ "untrusted-root", { .untrusted_root = 1 }, 1 }, { "untrusted-root-depth2", { .untrusted_root = 1 }, 2 }, { "impostor-certificate-shaped-like-the-trust-anchor", { .untrusted_root = 1, .lookalike = 1 }, 1 }, { "expired", { .expired = 1 }, 1 }, { "not-yet-valid", { .notyet = 1 }, 1 }, { "not-yet-valid-by-2^32-seconds", { .notyet32 = 1 }, 1 }, { "not-yet-valid-by-2^32-seconds-depth2", { .notyet32 = 1 }, 2 }, { "expired-depth2", { .expired = 1 }, 2 },
+	{ "untrusted-root", { .untrusted_root = 1 }, 1 }, { "untrusted-root-depth2", { .untrusted_root = 1 }, 2 }, { "impostor-certificate-shaped-like-the-trust-anchor", { .untrusted_root = 1, .lookalike = 1 }, 1 }, { "expired", { .expired = 1 }, 1 }, { "not-yet-valid", { .notyet = 1 }, 1 }, { "not-yet-valid-by-2^32-seconds", { .notyet32 = 1 }, 1 }, { "expired-one-hour-ago-verifier-in-UTC+8", { .expired1h = 1 }, 1, 0, 0, "CST-8" }, { "expired-one-hour-ago-verifier-in-UTC-5", { .expired1h = 1 }, 1, 0, 0, "EST5" }, { "valid-in-one-hour-verifier-in-UTC-5", { .notyet1h = 1 }, 1, 0, 0, "EST5" }, { "valid-in-one-hour-verifier-in-UTC+8", { .notyet1h = 1 }, 1, 0, 0, "CST-8" }, { "honest-verifier-in-UTC+8", {0}, 1, 0, 0, "CST-8" }, { "honest-verifier-in-UTC-5", {0}, 1, 0, 0, "EST5" }, { "not-yet-valid-by-2^32-seconds-depth2", { .notyet32 = 1 }, 2 }, { "expired-depth2", { .expired = 1 }, 2 },
 	{ "issuer-without-basicConstraints", { .issuer_no_bc = 1 }, 2 }, { "issuer-without-basicConstraints-depth3", { .issuer_no_bc = 1 }, 3 }, { "second-level-issuer-without-basicConstraints", { .issuer2_no_bc = 1 }, 3 }, { "second-level-issuer-cA-FALSE", { .issuer2_ca_false = 1 }, 3 }, { "issuer-cA-FALSE", { .issuer_ca_false = 1 }, 2 }, { "issuer-cA-FALSE-depth3", { .issuer_ca_false = 1 }, 3 },
 	{ "certificate-signature-bitflip", { .sigflip = 1 }, 1 }, { "certificate-signature-bitflip-depth2", { .sigflip = 1 }, 2 }, { "sign-key-does-not-match-certificate", { .wrong_signkey = 1 }, 1 }, { "sign-key-does-not-match-certificate-depth2", { .wrong_signkey = 1 }, 2 },
 	{ "enc-key-does-not-match-enc-certificate", { .wrong_enckey = 1 }, 1, 1 }, { "enc-certificate-forged", { .enc_forged = 1 }, 1, 1 }, { "enc-certificate-forged-depth2", { .enc_forged = 1 }, 2, 1 }, { "enc-certificate-forged-depth3", { .enc_forged = 1 }, 3, 1 }, { "enc-certificate-expired", { .enc_expired = 1 }, 1, 1 }, { "enc-certificate-expired-depth2", { .enc_expired = 1 }, 2, 1 }, { "chain-in-wrong-order", { .wrong_order = 1 }, 2 }, { "chain-in-wrong-order-depth3", { .wrong_order = 1 }, 3 }, { "forged-issuing-CA-depth2", { .issuer_forged = 1 }, 2 }, { "forged-issuing-CA-depth3", { .issuer_forged = 1 }, 3 }, { "forged-issuing-CA-under-a-CA-without-pathLen", { .issuer_forged = 1, .issuer2_no_pathlen = 1 }, 3 }, { "honest-upper-CA-without-pathLen", { .issuer2_no_pathlen = 1 }, 3 }, { "empty-chain", { .empty_chain = 1 }, 1, 0, 1 },
@@ -19,7 +20,7 @@ static defect_t DEF[] = {
 typedef struct { int status, c_hs, s_hs, sec_equal; } out_t; static out_t *XO; static char FAIL[32];
 static void run_exec(int proto, int mode /* 0 server defective, 1 client defective (mutual), 2 server defective and it requests a client certificate (mutual), 3 / 4 = 0 / 1 with the VERIFIER's trust list holding the genuine root plus six unrelated CA certificates (more than 2048 octets) */, const defect_t *d) { int big = mode >= 3; if (big) mode -= 3; int who_is_defective = mode == 1; int mutual = mode != 0;
 	memset(XO, 0, sizeof *XO); FAIL[0] = 0; fflush(stdout); pid_t pid = fork(); if (pid < 0) vh_harness_error("fork");
-	if (pid == 0) { if (!freopen("/dev/null", "w", stderr) || !freopen("/dev/null", "w", stdout)) {} alarm(30); static side_creds srv, cli; static ep_t c, s; memset(&c, 0, sizeof c); memset(&s, 0, sizeof s);
+	if (pid == 0) { if (!freopen("/dev/null", "w", stderr) || !freopen("/dev/null", "w", stdout)) {} alarm(30); if (d->tz) { setenv("TZ", d->tz, 1); tzset(); } static side_creds srv, cli; static ep_t c, s; memset(&c, 0, sizeof c); memset(&s, 0, sizeof s);
 		if (build_side(&srv, proto, 0, who_is_defective == 0 ? d->depth : 1, who_is_defective == 0 ? &d->df : NULL) != 1 || build_side(&cli, proto, 1, who_is_defective == 1 ? d->depth : 1, who_is_defective == 1 ? &d->df : NULL) != 1) _exit(3);
 		c.proto = s.proto = proto; c.is_client = 1; c.mutual = s.mutual = mutual; c.own = &cli; s.own = &srv; c.trust = &srv; s.trust = mutual ? &cli : NULL;
 		if (big) { static side_creds bt; bt = who_is_defective ? cli : srv; uint8_t *p = bt.cacerts + bt.cacertslen; for (int u = 0; u < 6; u++) { cert_spec us; char cn[8]; snprintf(cn, sizeof cn, "U%d", u); spec_ca(&us, cn, -1); size_t n = 0; if (make_cert(&us, &CK[9], &CK[9], cn, p, &n) == 1 && (size_t)(p - bt.cacerts) + n <= sizeof bt.cacerts) p += n; } bt.cacertslen = (size_t)(p - bt.cacerts); if (who_is_defective) s.trust = &bt; else c.trust = &bt; } c.entropy_key = 0xC11E17; s.entropy_key = 0x5E12BE12; c.entropy_fail_at = s.entropy_fail_at = -1;
